@@ -50,12 +50,12 @@ const sampleKey = "dGhlIHNhbXBsZSBub25jZQ=="
 
 // fakeRW is an http.ResponseWriter + http.Hijacker over a scripted transport.
 type fakeRW struct {
-	conn     net.Conn
-	brw      *bufio.ReadWriter
-	hdr      http.Header
-	status   int
-	body     bytes.Buffer
-	hijacked int
+	conn      net.Conn
+	brw       *bufio.ReadWriter
+	hdr       http.Header
+	status    int
+	body      bytes.Buffer
+	hijacked  int
 	hijackErr error
 }
 
